@@ -585,6 +585,9 @@ func oracleC08(t *Trace, v *vset) {
 		}
 		for _, w := range t.Writes {
 			if w.Seq > wa.RetSeq && w.Gen == wa.Gen && (w.Path == pp || under(w.Path, pp)) {
+				if rewritesSame(t, w) {
+					continue // nothing new becomes durable after the release
+				}
 				kl := "object"
 				if o := t.Obj(w.Path); o != nil {
 					kl = kindLabel(o)
